@@ -58,6 +58,11 @@ CLAIMS = {
             'reachable after an effect on the writer state or the destination (fixpoint summaries; structural discharges for contradicted arms and already-tested '
             'limits; dead refusals tabled with their invariant); effects sit behind the state and id-membership tests; the copied byte count is compared '
             'with the announced length; refusals surface through StreamWriter and the CLI. Equality of the final archive with the reference model is not decided.'),
+    'C14': (TECH_RULES, '§4 C14',
+            'Decides for all paths: every flush of the writer chain (all LayerWriter types, WriterWithCount, StreamWriter, ArchiveWriter, the C entry point '
+            'and callback adapter, the CLI output type) returns Ok only after forwarding the flush to the wrapped writer and reports its failure; the '
+            'pass-through layers own no byte container; the compression layer flushes the brotli compressor; the fail-safe decompressor must call the '
+            'decoder before reporting end of input (one genuine defect recorded as known finding). The number of bytes recovered is not decided.'),
 }
 
 NOT_APPLICABLE = {
